@@ -46,6 +46,14 @@ def store_facts(ns, store, model, obs, tol_q=F64):
         and np.array_equal(np.sort(np.concatenate([li, ni])), np.arange(n)))
     thr = store.log_likelihood_threshold
     f["thr_set"] = thr is not None
+    # with a strict threshold (the SAMPLER's setting) the live set is exactly the samples at or above it
+    strict = bool(getattr(ns, "strict_threshold", False))
+    if strict and thr is not None and live is not None and n:
+        is_live = np.zeros(n, dtype=bool)
+        is_live[li] = True
+        f["strict_ok"] = bool(np.all(L[is_live] >= thr) and np.all(L[~is_live] < thr))
+    else:
+        f["strict_ok"] = True
     # per-iteration draw counts from the samples actually present
     its = smp["it"].astype(int)
     f["it_counts"] = np.bincount(its + 1, minlength=max(1, int(its.max()) + 2) if n else 1).tolist()
